@@ -108,6 +108,14 @@ Theorem C08_bad_crc : forall sec nsec ms e_ts e_pay e_crc padding,
   PeerU.badg message c_verdict maxlen (xor_bytes (valid_frame sec nsec ms padding) (alteration e_ts e_pay e_crc padding)).
 Proof. exact C08Bad.badg_altered. Qed.
 
+(* ... and every frame with a good header (with or without checksum, the checksum may even be right) whose payload is not a
+   sequence of items *)
+Theorem C08_bad_payload : forall (crc : bool) (ts payload trailer : list N),
+  length ts = 12%nat -> N.of_nat (length payload) < 65536 -> length trailer = (if crc then 4 else 0)%nat ->
+  dec_items (S (length payload)) payload = None ->
+  PeerU.badg message c_verdict maxlen (malformed_frame crc ts payload trailer).
+Proof. exact C08Bad.badg_malformed. Qed.
+
 (* non-vacuity: the initial state with a script that uses every behaviour satisfies the invariant; encodable reply functions
    exist (grant level 10 / refuse with level 0); the configured authentication request is valid *)
 Definition demo_script : list (behaviour) :=
@@ -129,4 +137,4 @@ Proof.
 Qed.
 
 Print Assumptions C08_history. Print Assumptions C08_call_spec. Print Assumptions C08_recovery. Print Assumptions C08_steady.
-Print Assumptions C08_disconnect. Print Assumptions C08_bad_instances. Print Assumptions C08_bad_crc.
+Print Assumptions C08_disconnect. Print Assumptions C08_bad_instances. Print Assumptions C08_bad_crc. Print Assumptions C08_bad_payload.
